@@ -1,8 +1,10 @@
 (* C04 -- Parsing untrusted bytes never panics, aborts or hangs.
    Statements only; the proofs are in Proofs/Safe*Proofs.v.  [bytes] is [list byte]: "forall bs" is every byte string. *)
 From LV Require Import Base.Bytes Model.Utf Model.OneByte Model.RangeMap Model.CMap Model.CMapParser Gen.Tables
-     Model.Obj Model.Parser Model.Safe Model.SafeFilt Model.SafeText Model.SafeContent Model.SafeXref
-     Proofs.SafeFiltProofs Proofs.SafeTextProofs Proofs.SafeContentProofs Proofs.SafeXrefProofs.
+     Model.Obj Model.Parser Model.Xref Model.Loader Model.LoaderExt Model.Safe Model.SafeFilt Model.SafeText Model.SafeContent
+     Model.SafeXref Model.SafeObjStm
+     Proofs.SafeFiltProofs Proofs.SafeTextProofs Proofs.SafeContentProofs Proofs.SafeXrefProofs
+     Proofs.SafeParserFuel Proofs.SafeSearchProofs Proofs.SafeObjStmProofs Proofs.SafeLoadProofs.
 Local Open Scope N_scope.
 
 (* ---------------- Stream::decode_ascii85 ---------------- *)
@@ -99,8 +101,9 @@ Theorem C04_inline_image_pinned_refuted :
   /\ outcome (sinline_len_pinned 1 (-1) 1 8) = SPanic ROverflow.
 Proof. exact sinline_len_pinned_refuted. Qed.
 (* recursion depth (repair 61b571d): a value parsed at depth d parses its elements at depth d - 1 and only when d > 0;
-   at depth 0 no recursive call is made, whatever the input.  So the recursion is at most MAX_BRACKET + 1 containers
-   deep, plus MAX_BRACKET + 1 for the parentheses of a literal string: PARSER_DEPTH_BOUND. *)
+   at depth 0 no recursive call is made, whatever the input.  So the recursion is at most MAX_NESTING + 1 containers
+   deep (MAX_NESTING = 16 since ce95661: in a debug build a container level costs 24-30 KiB of stack), plus
+   MAX_BRACKET + 1 for the parentheses of a literal string: PARSER_DEPTH_BOUND. *)
 Theorem C04_parser_depth_decreases : forall f d s,
   direct_objects_at (S f) d s = object_alts_c (direct_objects_at f (pred d)) (depth_ok d) true f s.
 Proof. exact depth_decreases. Qed.
@@ -132,6 +135,89 @@ Theorem C04_xref_stream_pinned_refuted :
   /\ outcome (sxref_stream_pinned 10 [9223372036854775806; 3]%Z [1; 1; 1]%Z
                [x01; x00; x00; x01; x00; x00; x01; x00; x00]) = SPanic ROverflow.
 Proof. exact sxref_stream_pinned_refuted. Qed.
+(* ---------------- rung 3: fuel sufficiency of the grammar model (an explicit LINEAR polynomial) ---------------- *)
+(* every loop iteration and every recursive call of the nom grammar consumes at least one input byte: with more fuel
+   than input bytes the model never answers out-of-fuel; the entry points use |s| + 2 *)
+Theorem C04_parser_fuel : forall fuel depth s, (length s < fuel)%nat -> direct_objects_at fuel depth s <> POut.
+Proof. intros fuel depth s H. apply direct_objects_at_fine. exact H. Qed.
+Theorem C04_direct_object_terminates : forall s, direct_object (fuel_for s) s <> POut /\ fuel_for s = S (S (length s)).
+Proof. intro s. split; [apply direct_object_fuel|reflexivity]. Qed.
+Theorem C04_content_terminates : forall s, decode_content s <> DecOut.
+Proof. exact decode_content_fuel. Qed.
+(* hence: on EVERY byte string Content::decode (as modelled) ends in a value or an error *)
+Theorem C04_content_total : forall s, decode_content s = DecErr \/ exists ops, decode_content s = DecOk ops.
+Proof.
+  intro s. pose proof (decode_content_fuel s) as H1. pose proof (decode_content_no_panic s) as H2.
+  destruct (decode_content s) as [ops| | |]; try congruence; [right; exists ops; reflexivity|left; reflexivity].
+Qed.
+
+(* ---------------- rung 3: Reader::search_substring and Reader::get_xref_start, every buffer ---------------- *)
+(* the scan loop: no panic site is reached (buffer[seek_pos], pattern[index], seek_pos -= index, seek_pos - index),
+   at most (|buffer| + 1) * (|pattern| + 1) iterations; search_substring: one level of recursion per match, every
+   activation starts behind the previous match: depth <= |buffer| - start_pos *)
+Theorem C04_search_substring_safe : forall buffer pattern depth_fuel scan_fuel start,
+  SafeXref.blen buffer < USIZE_MAX ->
+  start <= SafeXref.blen buffer -> SafeXref.blen buffer - start < N.of_nat depth_fuel ->
+  (SafeXref.blen buffer + 1) * (SafeXref.blen pattern + 1) < N.of_nat scan_fuel ->
+  no_panic (ssearch depth_fuel scan_fuel buffer pattern start)
+  /\ terminates (ssearch depth_fuel scan_fuel buffer pattern start)
+  /\ max_depth (ssearch depth_fuel scan_fuel buffer pattern start) <= SafeXref.blen buffer - start
+  /\ max_alloc (ssearch depth_fuel scan_fuel buffer pattern start) = 0
+  /\ forall r, outcome (ssearch depth_fuel scan_fuel buffer pattern start) = SOk (Some r) ->
+       start <= r /\ r + SafeXref.blen pattern <= SafeXref.blen buffer.
+Proof. intros buffer pattern df sf start H1 H2 H3 H4. exact (ssearch_safe buffer pattern H1 df sf start H2 H3 H4). Qed.
+(* get_xref_start looks at the last 512 bytes, then from 25 bytes before the last %%EOF of that window: whatever the file
+   contains the recursion is at most 537 deep, nothing is allocated, and the position returned lies in the buffer *)
+Theorem C04_get_xref_start_safe : forall buffer, SafeXref.blen buffer < USIZE_MAX ->
+  no_panic (sget_xref_start buffer) /\ terminates (sget_xref_start buffer)
+  /\ max_depth (sget_xref_start buffer) <= 537
+  /\ max_alloc (sget_xref_start buffer) = 0
+  /\ forall p, outcome (sget_xref_start buffer) = SOk p -> p <= SafeXref.blen buffer.
+Proof. exact sget_xref_start_safe. Qed.
+Theorem C04_example_get_xref_start :
+  outcome (sget_xref_start (bs "%PDF-1.5 0123456789012345678901234567890 startxref 9 %%EOF startxref 7 %%EOF")) = SOk 59.
+Proof. vm_compute. reflexivity. Qed.
+
+(* ---------------- rung 3: ObjectStream::new ---------------- *)
+(* `first_offset + chunk[1] as usize` cannot overflow (first_offset <= content.len() <= isize::MAX, the other a u32),
+   `numbers[..len]` is in range; the bytes parsed and kept by one object stream: every single request at most
+   |content|, the total at most pairs * |content| -- QUADRATIC, and attained when pairs share an offset:
+   known finding C04-objstm-shared-offsets (a 12.8 KB file makes load_mem allocate more than 1 GiB) *)
+Theorem C04_objstm_arith_no_panic : forall first off numbers, first <= ISIZE_MAX -> off <= U32_MAX ->
+  sobjstm_offset first off = ret (first + off) /\ no_panic (sobjstm_even numbers).
+Proof. intros. split; [apply sobjstm_offset_no_panic; assumption|apply sobjstm_even_no_panic]. Qed.
+Theorem C04_objstm_work : forall len first offs, first <= ISIZE_MAX -> Forall (fun o => o <= U32_MAX) offs ->
+  no_panic (sobjstm_work len first offs)
+  /\ outcome (sobjstm_work len first offs) = SOk (total_rest len first offs)
+  /\ max_alloc (sobjstm_work len first offs) <= len
+  /\ total_rest len first offs <= N.of_nat (length offs) * len.
+Proof. exact sobjstm_work_safe. Qed.
+Theorem C04_objstm_quadratic_witness : forall n len, 0 < len ->
+  total_rest len 0 (repeat 0 n) = N.of_nat n * len /\ KnownSharedOffsets (repeat 0 (S (S n))) = true.
+Proof. exact sobjstm_work_quadratic_witness. Qed.
+
+(* ---------------- rung 3: the cross-reference table, and the composition Reader::read ---------------- *)
+(* c02's Model/Xref.v: the table parser and the stream decoder end in a value or an error on every input
+   (fuel |s| + 1: every entry and every subsection consumes input) *)
+Theorem C04_xref_table_safe : forall s, xref_and_trailer_table s <> XPanic /\ xref_and_trailer_table s <> XOut.
+Proof. exact xref_and_trailer_table_safe. Qed.
+Theorem C04_xref_stream_model_safe : forall decompress d c,
+  decode_xref_stream decompress d c <> XPanic /\ decode_xref_stream decompress d c <> XOut.
+Proof. exact decode_xref_stream_safe. Qed.
+(* c01's Model/LoaderExt.v = Reader::read (header, get_xref_start, xref_and_trailer, the Prev loop with already_seen
+   and XRefStm, read_object with Length references cut at MAX_LENGTH_CHAIN, object streams, the zero-length pass), for
+   ALL byte strings and EVERY behaviour of Stream::decompress.
+   _partial: (1) a trailer with Encrypt is answered [LUnmodelled] (authenticate_password("") / decrypt are not part of
+   the loader model): nothing is claimed for those inputs; (2) Stream::decompress is a parameter: its own termination
+   and panics are C04_a85_*, C04_predictor_* and the flate2 / weezl assumption; (3) no allocation bound is proved for the
+   composition (C04_load_alloc is missing: the loader models carry no cost annotation; the harness measures it). *)
+Theorem C04_load_no_panic_partial : forall decompress can_decompress bs, load_ext decompress can_decompress bs <> LPanic.
+Proof. intros d c bs. apply (load_ext_safe d c bs). Qed.
+(* the fuels: grammar |s| + 2, table |s| + 1, Prev loop |buf| + 2 (every iteration adds a new offset in 0..|buf| to
+   already_seen), Length chain MAX_LENGTH_CHAIN + 1 -- never exhausted *)
+Theorem C04_load_terminates_partial : forall decompress can_decompress bs, load_ext decompress can_decompress bs <> LOut.
+Proof. intros d c bs. apply (load_ext_safe d c bs). Qed.
+
 (* Reader::search_substring recurses once per occurrence of the pattern (get_xref_start scans the last 512 + 25 bytes only) *)
 Theorem C04_search_substring_depth_example :
   let buf := EOF5 ++ [x0a] ++ EOF5 ++ [x0a] ++ EOF5 in
@@ -166,3 +252,17 @@ Print Assumptions C04_cmap_get_is_model_get.
 Print Assumptions C04_cmap_text_no_panic.
 Print Assumptions C04_cmap_sub_site_is_real.
 Print Assumptions C04_example_cmap.
+Print Assumptions C04_parser_fuel.
+Print Assumptions C04_direct_object_terminates.
+Print Assumptions C04_content_terminates.
+Print Assumptions C04_content_total.
+Print Assumptions C04_search_substring_safe.
+Print Assumptions C04_get_xref_start_safe.
+Print Assumptions C04_example_get_xref_start.
+Print Assumptions C04_objstm_arith_no_panic.
+Print Assumptions C04_objstm_work.
+Print Assumptions C04_objstm_quadratic_witness.
+Print Assumptions C04_xref_table_safe.
+Print Assumptions C04_xref_stream_model_safe.
+Print Assumptions C04_load_no_panic_partial.
+Print Assumptions C04_load_terminates_partial.
